@@ -300,3 +300,134 @@ package cdcn
 //@   loop 1:
 //@     invariant inv(scanner_, this)
 //@     decreases *
+
+// ---------------------------------------------------------------- formatter (C10: state frame, termination, no runtime error)
+
+// sbtext(b): the text accumulated in a strings.Builder
+//@ model sbtext Str
+//@ assume func (*strings.Builder).WriteString
+//@   nopanic
+//@   modifies sbtext(this)
+//@   ensures sbtext(this) == sconcat(old(sbtext(this)), $1)
+//@ assume func (*strings.Builder).String
+//@   nopanic
+//@   ensures result == sbtext(this)
+//@ assume func (*strings.Builder).Reset
+//@   nopanic
+//@   modifies sbtext(this)
+//@   ensures sbtext(this) == ""
+
+//@ define fbuf(f) := sbtext(fieldaddr(f, result_))
+
+//@ type *formatter_
+//@   invariant[C10] 0 <= this.depth_ && this.depth_ <= this.maximum_
+
+//@ func (*formatter_).appendString
+//@   props C10
+//@   safe
+//@   nopanic
+//@   noinv
+//@   modifies sbtext(fieldaddr(this, result_))
+//@ func (*formatter_).appendNewline
+//@   props C10
+//@   safe
+//@   nopanic
+//@   noinv
+//@   modifies sbtext(fieldaddr(this, result_))
+//@   loop 1:
+//@     invariant 0 <= level
+//@     decreases this.depth_ - level
+//@ func (*formatter_).getResult
+//@   props C10
+//@   safe
+//@   nopanic
+//@   noinv
+//@   modifies sbtext(fieldaddr(this, result_))
+//@   ensures[C10] fbuf(this) == "" && result == old(fbuf(this))
+
+//@ func (*formatter_).FormatValue
+//@   props C10
+//@   safe
+//@   requires this.depth_ == 0 && fbuf(this) == ""
+//@   modifies this.depth_, sbtext(fieldaddr(this, result_))
+//@   ensures[C10] this.depth_ == 0 && fbuf(this) == ""
+//@   xensures[C10] this.depth_ == 0 && fbuf(this) == ""
+
+//@ func (*formatter_).formatValue
+//@   props C10
+//@   safe
+//@   modifies this.depth_, sbtext(fieldaddr(this, result_))
+//@   decreases this.maximum_ - this.depth_, 9
+//@   ensures[C10] this.depth_ == old(this.depth_)
+//@ func (*formatter_).formatCollection
+//@   props C10
+//@   safe
+//@   modifies this.depth_, sbtext(fieldaddr(this, result_))
+//@   decreases this.maximum_ - this.depth_, 8
+//@   ensures[C10] this.depth_ == old(this.depth_)
+//@ func (*formatter_).formatSequence
+//@   props C10
+//@   safe
+//@   modifies this.depth_, sbtext(fieldaddr(this, result_))
+//@   decreases this.maximum_ - this.depth_, 7
+//@   ensures[C10] this.depth_ == old(this.depth_)
+//@ func (*formatter_).formatItems
+//@   props C10
+//@   safe
+//@   modifies this.depth_, sbtext(fieldaddr(this, result_))
+//@   decreases this.maximum_ - this.depth_, 6
+//@   ensures[C10] this.depth_ == old(this.depth_)
+//@ func (*formatter_).formatArray
+//@   props C10
+//@   safe
+//@   modifies this.depth_, sbtext(fieldaddr(this, result_))
+//@   decreases this.maximum_ - this.depth_, 5
+//@   ensures[C10] this.depth_ == old(this.depth_)
+//@   loop 1:
+//@     invariant 0 <= i && this.depth_ == old(this.depth_) + 1 && this.depth_ <= this.maximum_
+//@     decreases size - i
+//@ func (*formatter_).formatContext
+//@   props C10
+//@   safe
+//@   modifies sbtext(fieldaddr(this, result_))
+//@   ensures[C10] this.depth_ == old(this.depth_)
+//@ func (*formatter_).formatIntrinsic
+//@   props C10
+//@   safe
+//@   modifies sbtext(fieldaddr(this, result_))
+//@   ensures[C10] this.depth_ == old(this.depth_)
+//@ func (*formatter_).formatAssociation
+//@   props C10
+//@   safe
+//@   modifies this.depth_, sbtext(fieldaddr(this, result_))
+//@   decreases this.maximum_ - this.depth_, 4
+//@   ensures[C10] this.depth_ == old(this.depth_)
+//@ func (*formatter_).formatMap
+//@   props C10
+//@   safe
+//@   modifies this.depth_, sbtext(fieldaddr(this, result_))
+//@   decreases this.maximum_ - this.depth_, 5
+//@   ensures[C10] this.depth_ == old(this.depth_)
+//@   loop 1:
+//@     invariant 0 <= i && this.depth_ == old(this.depth_) + 1 && this.depth_ <= this.maximum_ && len(keys) == size
+//@     decreases size - i
+//@ func (*formatter_).formatValues
+//@   props C10
+//@   safe
+//@   trusts safe.assert@TypeAssert1: the reflective call of HasNext returns its bool result
+//@   modifies this.depth_, sbtext(fieldaddr(this, result_))
+//@   decreases this.maximum_ - this.depth_, 5
+//@   ensures[C10] this.depth_ == old(this.depth_)
+//@   loop 1:
+//@     invariant this.depth_ == old(this.depth_) + 1 && this.depth_ <= this.maximum_
+//@     decreases *
+//@ func (*formatter_).formatAssociations
+//@   props C10
+//@   safe
+//@   trusts safe.assert@TypeAssert1: the reflective call of HasNext returns its bool result
+//@   modifies this.depth_, sbtext(fieldaddr(this, result_))
+//@   decreases this.maximum_ - this.depth_, 5
+//@   ensures[C10] this.depth_ == old(this.depth_)
+//@   loop 1:
+//@     invariant this.depth_ == old(this.depth_) + 1 && this.depth_ <= this.maximum_
+//@     decreases *
